@@ -1,5 +1,7 @@
+pub mod bus;
 pub mod fields;
 pub mod pgen;
+pub mod pipeline;
 pub mod opsem;
 pub mod prog;
 pub mod util;
